@@ -167,7 +167,7 @@ class APDCharacteristics:
     @quantum_efficiency.setter
     def quantum_efficiency(self, value: float) -> None:
         """Set Quantum efficiency."""
-        if np.min(value) < 0.0 or np.max(value) > 1.0:
+        if not (np.min(value) >= 0.0 and np.max(value) <= 1.0):
             raise ValueError("'quantum_efficiency' values must be between 0.0 and 1.0.")
 
         self._quantum_efficiency = value
@@ -180,7 +180,7 @@ class APDCharacteristics:
     @avalanche_gain.setter
     def avalanche_gain(self, value: float) -> None:
         """Set APD gain."""
-        if np.min(value) < 1.0 or np.max(value) > 1000.0:
+        if not (np.min(value) >= 1.0 and np.max(value) <= 1000.0):
             raise ValueError("'apd_gain' values must be between 1.0 and 1000.")
         self._avalanche_gain = value
         self._avalanche_bias = self.gain_to_bias_saphira(value)
